@@ -65,6 +65,11 @@ _TOM = ['pub trait ToM { type Out; }', 'impl<K> ToM for K { type Out = M; }', 'p
 # (trait list, declarations before the struct, the struct, how a value is built)
 PROJECTION_STRUCTS = [
     ('Add, SubAssign, Neg', _UN, 'pub struct L<T: Un>(pub T::Num, pub T::Num);', 'L::<Mt>'),
+    # `Self` in an inline bound of the parameter / in the where-clause: the impls for `&L<T>` have to spell it out
+    ('Add, SubAssign, Neg', ['pub trait PartOf<X: ?Sized> {}', 'impl<X: ?Sized> PartOf<X> for M {}'],
+     'pub struct L<T: PartOf<Self>>(pub T, pub T);', 'L::<M>'),
+    ('Add, SubAssign, Neg', ['pub trait PartOf<X: ?Sized> {}', 'impl<X: ?Sized> PartOf<X> for M {}'],
+     'pub struct L<T: PartOf<Option<Self>>>(pub T, pub T) where Self: Sized, T: PartOf<(Self, u8)>;', 'L::<M>'),
     # field types that merely MENTION a well-known name (a marker type as an argument, the user's own type of that name):
     # they are ordinary operands
     ('Add, SubAssign, Neg', _TOM + ['pub type PhantomData = M;'],
